@@ -41,7 +41,7 @@ func c15New(T time.Duration) *DialogBasedBackend {
 }
 
 func TestC15(t *testing.T) {
-	V.Rule("unit, measured time: rapid state machine over pin(d, Expires in {0,1,2,2^31-1} s) / lookup / terminate / sleep / traffic on a pin table with timeout T in {30,60,120} ms; a lookup whose latest possible age is below the lifetime max(T, Expires) must find the pinned backend, one whose earliest possible age is at or beyond it must not, anything between is a don't-care; after terminate: not found. Boundedness scenarios: expired keys plus one huge-Expires pin, then steady traffic at measured gaps <= T/4 for 3T: every key expired more than 1.5T ago must be gone from the table and the table size stays bounded. non-trivial = history with a probe on each side of an expiry, or a termination followed by a probe, or a huge-Expires pin followed by >= 2T of traffic; distinct by history text")
+	V.Rule("unit, measured time: rapid state machine over pin(d, Expires in {0,1,2,2^31-1} s) / lookup / terminate / sleep / traffic on a pin table with timeout T in {30,60,120} ms; a lookup whose latest possible age is below the lifetime max(T, Expires) must find the pinned backend, one whose earliest possible age is at or beyond it must not, anything between is a don't-care; after terminate: not found. Boundedness scenarios: expired keys plus one huge-Expires pin, then steady traffic at measured gaps <= T/4 for 3T: every key expired more than 1.5T ago must be gone from the table and the table size stays bounded. non-trivial = history with a probe on each side of an expiry, or a termination followed by a probe, or a huge-Expires pin followed by >= 2T of traffic; distinct by history text. lab / bin: the same on a real proxy with a 1 s dialog timeout (termination histories of BYE / NOTIFY / in-dialog probes; a BYE answered with each of 45 notable final statuses - thorough: every status 200-699 - must dissolve the pin; expiry probes with measured ages)")
 	V.Assume("time is measured around every product call; scheduling delays can only turn a judged probe into a don't-care (a boundedness scenario whose measured traffic gap exceeds T/4 is skipped and counted)")
 	V.Require("probe before expiry", "probe after expiry", "terminate then probe", "huge Expires pin", "boundedness scenario judged")
 
@@ -393,7 +393,7 @@ func c15Lab(t *testing.T, variant stdVariant, engine string) {
 		for i := 0; i < steps; i++ {
 			switch rapid.IntRange(0, 3).Draw(rt, "op") {
 			case 0: // BYE answered by the backend with any final status
-				code := rapid.SampledFrom([]int{200, 202, 403, 408, 481, 500, 503, 603}).Draw(rt, "bye status")
+				code := gFinalStatus(rt, "bye status")
 				stuck, _, _, err := probe(d, "BYE", "")
 				if err != nil {
 					failf(rt, "%v\nhistory: %v", err, hist)
@@ -465,6 +465,74 @@ func c15Lab(t *testing.T, variant stdVariant, engine string) {
 		}
 		V.NonTrivial(strings.Join(hist[1:], "|"))
 		V.SampleEvery(20, func() any { return hist })
+	})
+
+	// every final status a backend can answer a BYE with (the statement says "answers a BYE", whatever the answer)
+	t.Run(engine+"-bye-statuses", func(t *testing.T) {
+		if V.replay && !strings.HasPrefix(V.only, "bye-status:") {
+			return
+		}
+		var codes []int
+		for _, c := range []int{200, 202, 204, 299, 300, 301, 302, 305, 380, 400, 401, 403, 404, 405, 407, 408, 410, 415, 420, 422, 423, 480, 481, 482, 483, 484, 486, 487, 488, 489, 491, 493, 499, 500, 501, 502, 503, 504, 513, 599, 600, 603, 604, 606, 699} {
+			codes = append(codes, c)
+		}
+		if V.Thorough() && !variant.Bin {
+			codes = nil
+			for c := 200; c <= 699; c++ {
+				codes = append(codes, c)
+			}
+		} else if variant.Bin {
+			codes = []int{200, 401, 407, 481, 487, 503, 603}
+		}
+		for _, code := range codes {
+			only := fmt.Sprintf("bye-status:%d", code)
+			if !V.OnlyMatch(only) || V.ViolationCount() > 0 {
+				continue
+			}
+			V.Eval()
+			d, err := pin("")
+			if err != nil {
+				if lost(err) {
+					V.Violation(t, only, nil, "%v", err)
+					return
+				}
+				V.HarnessError(t, "%v", err)
+			}
+			V.Journal(t.Name(), map[string]any{"bye_answered_with": code, "dialog": d.id})
+			stuck, _, _, err := probe(d, "BYE", "")
+			if err != nil {
+				V.Violation(t, only, nil, "%v", err)
+				return
+			}
+			if !stuck {
+				V.Violation(t, only, nil, "BYE of dialog %s, pinned a moment ago to %s, was not delivered to the pinned backend", d.id, d.pinned)
+				return
+			}
+			if err := answerBye(s, l, d, code); err != nil {
+				if lost(err) {
+					V.Violation(t, only, nil, "%v", err)
+					return
+				}
+				V.HarnessError(t, "%v", err)
+			}
+			m := []string{"INFO", "UPDATE", "MESSAGE", "OPTIONS"}[code%4]
+			stuck, _, after, err := probe(d, m, "")
+			if err != nil {
+				V.Violation(t, only, nil, "%v", err)
+				return
+			}
+			if after.Sub(d.pinBefore) > d.life-50*time.Millisecond {
+				V.Class("lab: termination history outlived the pin's timeout (rest is don't-care)")
+				continue
+			}
+			V.Class("lab: BYE answered dissolves the pin")
+			V.Class(fmt.Sprintf("lab: BYE answered %dxx", code/100))
+			V.NonTrivial(fmt.Sprintf("%s|bye|%d", engine, code))
+			if stuck {
+				V.Violation(t, only, map[string]any{"bye_answered_with": code}, "the pinned backend answered the BYE of dialog %s with %d, yet the next %s bearing the dialog's identifiers was still delivered to the formerly pinned backend %s instead of being load-balanced (the rotation's next backend was another one)", d.id, code, m, d.pinned)
+				return
+			}
+		}
 	})
 
 	t.Run(engine+"-expiry", func(t *testing.T) {
